@@ -47,6 +47,7 @@ instance : Val FinF where
   eq a b := F64.eq a.1 b.1
   interp a b f :=
     if h : Canon (Val.interp a.1 b.1 f) then ⟨Val.interp a.1 b.1 f, h⟩ else a
+  before a b := Val.before a.1 b.1
 
 /-- **float64 comparisons are lawful**: on finite values `F64.lt` is the strict order and `F64.eq`
 the equality of a linear order — the order of the exact rational values. -/
@@ -54,6 +55,9 @@ instance : LawfulVal FinF where
   lt_iff a b := lt_iff_sval a.1 b.1 a.2.1 b.2.1
   eq_iff a b := (eq_iff_sval a.1 b.1 a.2.1 b.2.1).trans
     ⟨fun h => FinF.ext' (sval_inj a.2 b.2 h), fun h => by rw [h]⟩
+  before_irrefl a := by
+    show (F64.signBit a.1 && !F64.signBit a.1) = false
+    cases F64.signBit a.1 <;> rfl
 
 /-! ### transfer from `List FinF` to the underlying `List F64.Bits` -/
 
@@ -76,7 +80,7 @@ theorem modeScan_val (l : List FinF) : ∀ (v : FinF) (c : Nat) (mv : FinF) (mc 
 
 theorem sortVals_val (l : List FinF) : sortVals (α := Bits) (l.map FinF.val) = (sortVals l).map FinF.val := by
   unfold sortVals
-  exact (List.map_mergeSort (f := FinF.val) (fun _ _ _ _ => rfl)).symm
+  exact (List.map_mergeSort (f := FinF.val) (r := sortLe) (s := sortLe) (fun _ _ _ _ => rfl)).symm
 
 theorem lift_vals (vals : List Bits) (hc : ∀ v ∈ vals, Canon v) : ∃ l : List FinF, l.map FinF.val = vals := by
   induction vals with
